@@ -2753,7 +2753,9 @@ void CWallet::LoadLockedCoin(const COutPoint& coin, bool persistent)
 bool CWallet::LockCoin(const COutPoint& output, bool persist)
 {
     AssertLockHeld(cs_wallet);
-    LoadLockedCoin(output, persist);
+    // A lock taken for this session only may be made persistent later: remember that the record exists
+    auto [it, inserted] = m_locked_coins.emplace(output, persist);
+    if (!inserted && persist) it->second = true;
     if (persist) {
         WalletBatch batch(GetDatabase());
         return batch.WriteLockedUTXO(output);
